@@ -249,6 +249,16 @@ func (r *Run) Now() time.Duration {
 	return time.Since(r.start)
 }
 
+// LoopLimit is the number of loop iterations (in the instrumented packages) after which a run is declared
+// to be spinning.  The busiest legitimate runs stay below one percent of it (probe
+// loop-iterations-over-1-percent-of-limit counts the runs that do not).
+const LoopLimit = 400_000_000
+
+var maxLoopsSeen int64
+
+// MaxLoopsSeen reports the largest per-run loop count of this process.
+func MaxLoopsSeen() int64 { return maxLoopsSeen }
+
 // Logf appends an event to the run's event log (hash + tail).  It never draws
 // from a PRNG and reads only the simulated clock.
 func (r *Run) Logf(format string, a ...any) {
@@ -437,6 +447,10 @@ func NewLogEntry() *logrus.Entry {
 	l := logrus.New()
 	l.SetOutput(io.Discard)
 	l.SetLevel(logrus.ErrorLevel)
+	if liveLog && os.Getenv("VERIF_LOGRUS") == "1" { // debugging aid, never used by a check
+		l.SetOutput(os.Stderr)
+		l.SetLevel(logrus.InfoLevel)
+	}
 	l.ExitFunc = func(int) { panic("logrus.Fatal called") }
 	return logrus.NewEntry(l)
 }
@@ -536,6 +550,15 @@ func Execute(sc *Scenario, base, index uint64, tier string, suppress []string, t
 	runtime.GC()
 	old := debug.SetGCPercent(-1)
 	runtimeVerifRandSeed(r.seed ^ 0x5EED)
+	// a loop of the code under test that neither ends nor blocks would hang the single-threaded simulation:
+	// the instrumented copies count loop iterations, and a run that passes the limit is stopped by a panic
+	// in the spinning goroutine (process-fatal, attributed to this run, reproduced by its replay)
+	common.VerifLoops = 0
+	common.VerifLoopLimit = LoopLimit
+	common.VerifLoopHook = func() {
+		common.VerifLoopLimit = 0
+		panic(fmt.Sprintf("livelock: more than %d loop iterations in one run", LoopLimit))
+	}
 	common.VerifYieldHook = nil
 	if sc.Yields {
 		r.yield.init(r)
@@ -605,6 +628,12 @@ func Execute(sc *Scenario, base, index uint64, tier string, suppress []string, t
 	}
 	if sc.Yields {
 		r.ProbeN("yield-sites-visited", int64(r.collectYields()))
+	}
+	if common.VerifLoops > LoopLimit/100 {
+		r.Probe("loop-iterations-over-1-percent-of-limit")
+	}
+	if common.VerifLoops > maxLoopsSeen {
+		maxLoopsSeen = common.VerifLoops
 	}
 	res.WallNS = int64(time.Since(wall))
 	leaked := runtime.NumGoroutine() - g0
